@@ -92,7 +92,7 @@ func isInsecure(p cPattern) bool {
 // spell renders the Sem as a cors.Config, choosing among equivalent spellings with rng:
 // order, duplicates, header-name case, normalisable method spellings, safelisted extras,
 // `*` mixed with discrete values, 204 as 0 or 204.
-var originStarSpell int
+var originStarSpell, exposeStarSpell int
 
 func (s Sem) spell(rng *rand.Rand) *cors.Config {
 	if s.Pass {
@@ -199,9 +199,15 @@ func (s Sem) spell(rng *rand.Rand) *cors.Config {
 	c.MaxAgeInSeconds = s.MaxAge
 	for _, n := range s.Expose {
 		if n == "*" {
+			// discrete names next to `*` (which covers them), among them the one name that has a special meaning next to `*` in
+			// the OTHER header list; which of them are there alternates deterministically, their order is shuffled below
 			c.ResponseHeaders = append(c.ResponseHeaders, "*")
-			if rng.Intn(2) == 0 {
+			exposeStarSpell++
+			if exposeStarSpell%2 == 0 {
 				c.ResponseHeaders = append(c.ResponseHeaders, "X-Next-To-Star")
+			}
+			if exposeStarSpell%3 != 0 {
+				c.ResponseHeaders = append(c.ResponseHeaders, randCase(rng, "authorization"))
 			}
 		} else if sp, ok := spelled[n]; ok && rng.Intn(4) != 0 {
 			c.ResponseHeaders = append(c.ResponseHeaders, sp) // byte-identical to the entry of RequestHeaders
@@ -269,6 +275,9 @@ func absResp(w *rec) map[string]any { return absRespH(w.status, w.final()) }
 func absRespH(status int, hdrs http.Header) map[string]any {
 	h := map[string]any{}
 	for k, v := range hdrs {
+		if len(v) == 0 {
+			continue // a key without field lines is not a header of the response
+		}
 		ab, ok := abbrev[k]
 		if !ok {
 			if strings.HasPrefix(k, "Access-Control-") {
